@@ -296,6 +296,18 @@ pub fn eval_suite_case(name: &str, yaml: &str, tree: &str, acc: &mut Acc) {
 
 pub fn replay(case: &Value) -> Result<Acc, String> {
     let mut acc = Acc::default();
+    if case["kind"] == "long-key" {
+        let lk = long_key_texts();
+        let (text, scalars) = lk.get(case["index"].as_u64().unwrap_or(0) as usize).ok_or("index out of range")?;
+        acc.evals += 1;
+        for bk in [Backend::Str, Backend::Buf] {
+            let got: Option<Vec<String>> = observe(text, bk, Api::Iter).ok().and_then(|o| if o.err.is_some() { None } else { Some(o.evs.iter().filter_map(|e| if let Ev::Sc(v, ..) = &e.0 { Some(v.clone()) } else { None }).collect()) });
+            if got.as_ref() != Some(scalars) {
+                acc.violation(Violation { key: "long-key".into(), expected: "the key and value scalars".into(), observed: format!("backend={} {:?}", bk.name(), got.map(|v| v.iter().map(|x| x.len()).collect::<Vec<_>>())), case: case.clone(), size: text.len() });
+            }
+        }
+        return Ok(acc);
+    }
     if case["kind"] == "suite" {
         eval_suite_case(case["name"].as_str().unwrap_or(""), case["text"].as_str().unwrap_or(""), case["tree"].as_str().unwrap_or(""), &mut acc);
         return Ok(acc);
@@ -358,6 +370,37 @@ pub fn spine_trees(dmin: usize, dmax: usize) -> Vec<T> {
         }
     }
     out
+}
+
+/// (text, the scalar values it must deliver in order)
+pub fn long_key_texts() -> Vec<(String, Vec<String>)> {
+    let mut v = vec![];
+    let s = |x: &str| x.to_string();
+    for n in [1usize, 2, 127, 128, 129, 512, 1021, 1022, 1023, 1024] {
+        let k = "k".repeat(n);
+        v.push((format!("{k}: v\n"), vec![k.clone(), s("v")]));
+        v.push((format!("a:\n  {k}: v\n"), vec![s("a"), k.clone(), s("v")]));
+        v.push((format!("- {k}: v\n"), vec![k.clone(), s("v")]));
+        v.push((format!("{k}:\n  - v\n"), vec![k.clone(), s("v")]));
+        v.push((format!("x: y\n{k}: v\n"), vec![s("x"), s("y"), k.clone(), s("v")]));
+        if n >= 3 {
+            // quoted keys: the quotes count
+            let q = "k".repeat(n - 2);
+            v.push((format!("\"{q}\": v\n"), vec![q.clone(), s("v")]));
+            v.push((format!("'{q}': v\n"), vec![q.clone(), s("v")]));
+            // a key made of words
+            let w = format!("{} z", "k".repeat(n - 2));
+            v.push((format!("{w}: v\n"), vec![w.clone(), s("v")]));
+        }
+    }
+    for n in [1024usize, 1025, 1100, 5000] {
+        let k = "k".repeat(n);
+        v.push((format!("{{{k}: v}}\n"), vec![k.clone(), s("v")]));
+        v.push((format!("[{k}: v]\n"), vec![k.clone(), s("v")]));
+        v.push((format!("? {k}\n: v\n"), vec![k.clone(), s("v")]));
+        v.push((format!("{{\"{k}\": v}}\n"), vec![k.clone(), s("v")]));
+    }
+    v
 }
 
 pub fn bounds(tier: Tier) -> Vec<(usize, usize)> {
@@ -438,6 +481,31 @@ pub fn check(tier: Tier) -> i32 {
     transitions += acc.counters.get("choice_edges").copied().unwrap_or(0);
     rep.acc.merge(acc);
     rep.scope(&format!("block mappings of <= {emax} nodes with the explicit entry form as the baseline ({}) x <= {edev} deviations", etrees.len()), n, done == etrees.len() as u64);
+    // implicit keys at the 1024-character limit (a key of exactly 1024 characters is legal), and keys
+    // beyond it where no limit applies (flow collections, explicit keys)
+    let lk = long_key_texts();
+    let (acc, done) = par_blocks(lk.len() as u64, &budget, |b, acc| {
+        let (text, scalars) = &lk[b as usize];
+        acc.evals += 1;
+        for bk in [Backend::Str, Backend::Buf] {
+            let got: Result<Vec<String>, String> = match observe(text, bk, Api::Iter) {
+                Err(m) => Err(format!("panic: {m}")),
+                Ok(o) => match &o.err {
+                    Some(e) => Err(e.info.clone()),
+                    None => Ok(o.evs.iter().filter_map(|e| if let Ev::Sc(v, ..) = &e.0 { Some(v.clone()) } else { None }).collect()),
+                },
+            };
+            if got.as_ref().ok() != Some(scalars) {
+                let what = if got.is_err() { "rejected" } else { "scalars-differ" };
+                acc.violation(Violation { key: format!("long-key {what}"), expected: format!("scalars of lengths {:?}", scalars.iter().map(|x| x.len()).collect::<Vec<_>>()), observed: format!("backend={} {}", bk.name(), match &got { Ok(v) => format!("scalars of lengths {:?}", v.iter().map(|x| x.len()).collect::<Vec<_>>()), Err(e) => e.clone() }), case: json!({"kind": "long-key", "index": b}), size: text.len() });
+                break;
+            }
+        }
+        acc.class(h64(text));
+    });
+    let n = acc.evals;
+    rep.acc.merge(acc);
+    rep.scope(&format!("implicit keys of 1 .. 1024 characters (block, nested, quoted) and longer keys in flow / explicit form ({} texts)", lk.len()), n, done == lk.len() as u64);
     // deep nesting chains ("spines"): block levels outside, flow levels inside
     let (dmin, dmax) = if tier == Tier::Quick { (7usize, 11usize) } else { (7, 15) };
     let strees = spine_trees(dmin, dmax);
